@@ -22,6 +22,8 @@ array's element type (NumPy's cast, Pure/NdSeq.lean: stepSeqGen); elsewhere the 
 and "dtype" is not looked at.  Other spelling keys of the harness ("sp", "shspell") do not change the meaning.
 Output: {"ok": {"create": "ok"|<Err>, "compressed": bool, "steps": [<observation after each step>]}}.
 A special line ["resolve", fc, bc, ac, refetched] answers {"ok": bool}.
+["reported", <dtype name>, "data_type" | "dtype"] answers {"ok": <dtype name>}: the element type of an array created
+with `dtype=` what an array of the given element type reports through that getter (compiled getters + createWith).
 -/
 namespace Driver.C01
 
@@ -222,6 +224,17 @@ def handle (j : Json) : Json :=
   match j with
   | .arr a =>
     match a.toList with
+    | [Json.str "reported", dt, which] =>
+      match dtypeOfName (jStr dt) with
+      | none => bad "C01: bad dtype name"
+      | some t =>
+        let stored := Nix.NdSpell.storedDtype t
+        let v := if jStr which == "dtype" then Nix.Gen.DataSetDType.daDtype stored
+                 else Nix.Gen.DataSetDType.dsDataType stored
+        match createWith v (some [1]) none false with
+        | some (.ok B) => ok (Json.str (dtypeName B.dtype))
+        | some (.error e) => ok (Json.str e.toString)
+        | none => bad "C01: outside the model"
     | [Json.str "resolve", fc, bc, ac, r] =>
       match comprOfName (jStr fc), comprOfName (jStr bc), comprOfName (jStr ac) with
       | some f, some b, some c => ok (Json.bool (resolveCompression f b c (jBool r)))
